@@ -125,11 +125,11 @@ def judge(out, family, trace, spec, clauses, known=None, meta=None):
 MC = SPEC / "mc"
 
 
-def p2(out, spec, cfgs, workers=10):
+def p2(out, spec, cfgs, workers=10, coverage=True):
     """Model checking of Tier-B models (design level).  A failing invariant of an
     unchanged specification is a tool error, never a property violation."""
     for cfg in cfgs:
-        st = core.tlc_mc_cached(MC / spec, MC / (cfg + ".cfg"), out.prop, workers=workers)
+        st = core.tlc_mc_cached(MC / spec, MC / (cfg + ".cfg"), out.prop, workers=workers, coverage=coverage)
         if not st["ok"]:
             raise ToolError(f"Tier-B model {spec}/{cfg} does not satisfy its invariants (specification regression):\n" + st.get("tail", ""))
         unused = [a for a, n in st["coverage"].items() if n == 0 and a in ("Next", "Feed", "Clean", "Finish")]
@@ -242,6 +242,46 @@ def p3_compact(out, hook_clauses, ops_clauses, known_clause=None):
         out.notes.append(msg)
     out.cov.setdefault("dumps", []).append({"cfg": "MCCompactDump", "behaviours": st["behaviours"], "replayed": n, "cached": st["cached"]})
     return known
+
+
+def expect_violation(out, spec, cfg, invariant):
+    """A configuration that must produce a counter-example (the model-level witness of a known
+    finding).  Its absence is a specification regression (tool error)."""
+    cache = WORK / "cache"
+    cache.mkdir(parents=True, exist_ok=True)
+    marker = cache / (core.spec_hash(MC / (cfg + ".cfg")) + "_" + cfg + ".witness")
+    if not marker.exists():
+        res = core.tlc_mc(MC / spec, MC / (cfg + ".cfg"), out.prop, workers=4, coverage=False)
+        if f"Invariant {invariant} is violated" not in res["out"]:
+            raise ToolError(f"expected counter-example of {invariant} in {cfg} not produced (specification regression)")
+        marker.write_text("ok")
+    out.cov.setdefault("model_witnesses", []).append(f"{cfg}: {invariant} violated as expected")
+
+
+def p3_group(out):
+    wd = WORK / out.prop
+    wd.mkdir(parents=True, exist_ok=True)
+    dump, st = core.tlc_dump(MC / "MCGroup.tla", MC / "MCGroupDump.cfg", out.prop)
+    trace = wd / "replay_group.ndjson"
+    rc, err = core.run_sv(["replay", "group", "--in", dump, "--out", trace])
+    if rc != 0:
+        raise ToolError(f"replay of Group behaviours failed rc={rc}: {err[-500:]}")
+    recs, _, drift = split_replay(trace, wd)
+    res = core.validate("TraceCalls", recs, out.prop)
+    rej = [(c, [x for x in cl if x in ("grouping", "panic")], ln) for c, cl, ln in res["rejects"]]
+    rej = [r for r in rej if r[1]]
+    if rej:
+        paths, bc = core.write_replays(out.prop, recs, rej, dict(family="replay_group"))
+        for c in sorted(bc)[:8]:
+            out.violation(f"replayed Group behaviour case {c}: clause(s) {sorted(bc[c])}", paths.get(c, "n/a"))
+    out.add("evaluations", drift["n"])
+    out.add("traces_validated_against_impl", drift["n"])
+    out.add("replayed_model_behaviours", drift["n"])
+    out.add("model_drift", drift["stream"])
+    if drift["stream"]:
+        msg = f"model drift: Group: {drift['stream']} of {drift['n']} replayed behaviours differ from the model (informational)"
+        print("INFO " + msg)
+        out.notes.append(msg)
 
 
 def alg_cfgs(out, algs, faults=False):
@@ -420,6 +460,7 @@ def c11(out):
         out.add("known_finding_hits", len(known))
     # model level: ExactAtEnd holds with the swap repair, "exact or a swap happened" without it
     p2(out, "MCCompact.tla", ["MCCompact", "MCCompactRepair"] + (["MCCompact_t", "MCCompactRepair_t"] if out.tier == "thorough" else []))
+    expect_violation(out, "MCCompact.tla", "MCCompactWitness", "ExactAtEnd")
     finish_counts(out)
 
 
@@ -657,6 +698,9 @@ def c12(out):
                  "returned groups are compared by TLC with Grouping!Expected, a declarative construction from the statement "
                  "(partition of the changes at gaps > 2n, min(n, L) context); non-trivial = >=2 changes and an Equal run of length "
                  "n, 2n or 2n+1", sample_keys=("ops", "n", "groups"))
+    p2(out, "MCGroup.tla", ["MCGroup" + ("_t" if out.tier == "thorough" else "")])
+    p3_group(out)
+    finish_counts(out)
 
 
 @prop("C13")
@@ -671,6 +715,8 @@ def c13(out):
                  "(old offset != new offset, different lengths, zero lengths) and TextDiff::iter_all_changes vs per-op iter_changes on "
                  "real diffs and on arbitrary scripts; compared by TLC with Expansion!ExpectedChanges / ExpectedSlices; non-trivial = "
                  "offsets and lengths differ between the sides", sample_keys=("ev", "old", "new", "op", "changes", "slices"))
+    p2(out, "MCIter.tla", ["MCIter" + ("_t" if out.tier == "thorough" else "")])
+    finish_counts(out)
 
 
 @prop("C06")
@@ -686,6 +732,8 @@ def c06(out):
                  "stray continuation) in every context; TLC judges losslessness, non-emptiness and the token shape (Tokens.tla: own UTF-8 "
                  "decoding and White_Space set) and str = bytes on valid UTF-8; non-trivial = input has a CR, a multi-byte or an invalid "
                  "sequence", sample_keys=("kind", "mode", "input", "tokens"))
+    p2(out, "MCTokens.tla", ["MCTokens" + ("_t" if out.tier == "thorough" else "")])
+    finish_counts(out)
 
 
 @prop("C04")
@@ -839,6 +887,11 @@ def c05(out):
                          f"arms ({len(known)} renderings rejected as shipped and accepted with the swap repair on, e.g. "
                          f"old={bytes(r['old'])!r} new={bytes(r['new'])!r} radius={r['radius']} -> {bytes(r['out_w'])!r})")
         out.add("known_finding_hits", len(known))
+    # composed model Myers -> Compact -> Replace -> group -> render against the Patch acceptor
+    sfx = "_t" if out.tier == "thorough" else ""
+    p2(out, "MCUdiff.tla", ["MCUdiff" + sfx, "MCUdiffRepair" + sfx], coverage=False)
+    expect_violation(out, "MCUdiff.tla", "MCUdiffWitness", "AlwaysAccepted")
+    finish_counts(out)
 
 
 # --------------------------------------------------------------------------- setup / selftest / replay
